@@ -418,7 +418,7 @@ func genC20(t *rapid.T) *Case {
 		for i := rapid.IntRange(1, 3).Draw(t, "nurl"); i > 0; i-- {
 			sch := rapid.SampledFrom([]string{"data:", "DATA:", "Data:", "https:", "HTTPS:", "x-app:", "X-App:", "mailto:", ""}).Draw(t, "ufs")
 			rest := rapid.SampledFrom([]string{"image/png;base64,iVBORw0KGgoAAAAN", "image/png;base64,iVBORw0K GgoAAAAN", "image/png;base64,iVBORw0K\nGgoAAAAN", "image/png;base64,iVBO\r\n  Rw0K\tGgo=",
-				"image/gif;BASE64,R0lG ODlh", "text/plain,a b", "//example.com/a b", "//EXAMPLE.com/%7Euser", "//example.com/\u00e9?q=\u00fc#\u00e4", "a@b.c", "/p/../q", "image/png;base64, iVBO", ";base64,QQ== "}).Draw(t, "ufr")
+				"image/gif;BASE64,R0lG ODlh", "text/plain,a b", "//example.com/a b", "//EXAMPLE.com/%7Euser", "//example.com/\u00e9?q=\u00fc#\u00e4", "a@b.c", "/p/../q", "image/png;base64, iVBO", ";base64,QQ== ", "a@b.c\u00a0#", "+123456\u3000#", "//example.com/p\u2003#"}).Draw(t, "ufr")
 			pad := rapid.SampledFrom([]string{"", "", " ", "\n", "\t"}).Draw(t, "ufpad")
 			v := pad + sch + rest + rapid.SampledFrom([]string{"", "", " "}).Draw(t, "ufpad2")
 			if rapid.Bool().Draw(t, "ufImg") {
